@@ -67,6 +67,17 @@ def run_plen(case):
                     from torrentfile.cli import execute
                     execute(["create", root, "-o", out, "--prog", "0", "--piece-length", str(arg(x)),
                              "--meta-version", str(case.get("version", 1))])
+                elif via == "interactive":
+                    # the interactive front end: answers in the order the dialog asks for them
+                    answers = iter([str(arg(x)), "", "", "", "", "", "n", root, out, str(case.get("version", 1))])
+                    import builtins
+                    real_input = builtins.input
+                    builtins.input = lambda *a: next(answers)
+                    try:
+                        from torrentfile.interactive import InteractiveCreator
+                        InteractiveCreator()
+                    finally:
+                        builtins.input = real_input
                 else:   # configuration file
                     ini = os.path.join(sbx, "torrentfile.ini")
                     with open(ini, "w", encoding="utf-8") as fh:
